@@ -173,6 +173,16 @@ theorem rw_int {s s' : Slice} {n : Nat} {v : Int} (h : s.readInt n = .ok (v, s')
       rw [intBitsGo_eq bs.length (bitsToInt bs) h1 (by omega) lo hi, intToBits_bitsToInt bs h1] at he
       exact Builder.writeBits_ok he
 
+theorem readBytes_len {s s' : Slice} {n : Nat} {v : List UInt8} (h : s.readBytes n = .ok (v, s')) :
+    s.bits.length = n * 8 + s'.bits.length := by
+  unfold Slice.readBytes at h
+  obtain ⟨r2, hr2, h3⟩ := bind_ok_inv h
+  obtain ⟨bs, s2⟩ := r2
+  simp only [pure, Outcome.ok.injEq, Prod.mk.injEq] at h3
+  obtain ⟨rfl, rfl⟩ := h3
+  obtain ⟨e, hlen⟩ := readBits_inv hr2
+  rw [e]; simp [Slice.prepend, hlen]
+
 theorem rw_bytes {s s' : Slice} {n : Nat} {v : List UInt8} (h : s.readBytes n = .ok (v, s')) :
     ∃ bs, Over s s' bs ∧ ∀ (b b' : Builder), b.writeBytes v = .ok b' → b' = b.app bs [] := by
   unfold Slice.readBytes at h
